@@ -90,3 +90,18 @@ Proof.
   intros. split; [now apply read_op_ext | split; [now apply write_op_ext | now apply effective_address_ext]].
 Qed.
 Print Assumptions C18_operand_access_depends_on_slot_only.
+
+(* BIT sets the N and Z that AND of the same operands sets, clears C like it, and writes no register *)
+From Dmd Require Import Proofs.AluFinal.
+Theorem C18_bit_equals_and_flags :
+  forall irb ira m a b r,
+    (iopcode irb = 56 \/ iopcode irb = 58 \/ iopcode irb = 59) ->
+    (iopcode ira = 248 \/ iopcode ira = 250 \/ iopcode ira = 251) ->
+    read_op irb 0 m = Ok a m -> read_op irb 1 m = Ok b m -> read_op ira 0 m = Ok a m -> read_op ira 1 m = Ok b m ->
+    omode (get_op ira 2) = MRegister -> oreg (get_op ira 2) = Some r -> 0 <= r <= 10 ->
+    otype (op1 irb) = otype (get_op ira 2) -> otype (get_op ira 2) <> DNone ->
+    exists mb ma, exec irb m = Ok (ilen irb) mb /\ exec ira m = Ok (ilen ira) ma
+      /\ flag F_N mb = flag F_N ma /\ flag F_Z mb = flag F_Z ma /\ flag F_C mb = false /\ flag F_C ma = false
+      /\ (forall i, 0 <= i <= 15 -> i <> 11 -> R mb i = R m i).
+Proof. exact bit_and_same_nz. Qed.
+Print Assumptions C18_bit_equals_and_flags.
